@@ -1,0 +1,6 @@
+//go:build verif
+
+package ecckd
+
+func VerifHmacCKD(seed, salt []byte) (key, chainCode []byte, err error) { return hmacCKD(seed, salt) }
+func VerifPaddedAppend(size int, dst, src []byte) []byte                { return paddedAppend(size, dst, src) }
